@@ -3,9 +3,10 @@ C06 — Configuration is deterministic and does not disturb unchanged outputs.
 
 Every modelled emitter takes the iteration order of each unordered Python collection as a `List`;
 "independent of hash randomisation" is invariance under `List.Perm` (written `~`).  Minted identifiers
-are the parameter `fresh`.  Where the real emitter does not sort, the full statement is kept as a
-`def … : Prop`, refuted on a concrete witness (`…_counterexample`), the provable part is `…_partial`,
-and the same statement is proved for the proposed repair (`…Fixed…`).
+are the parameter `fresh`.  Where the real emitter still does not satisfy the statement (minted dependency names,
+unconditional writers), the full statement is kept as a `def … : Prop`, refuted on a concrete witness
+(`…_counterexample`) and the provable part is `…_partial`.  The emitters repaired in /repo by 8af551c,
+41e7e99 and 880fde3 are modelled as repaired and their theorems are at full strength.
 Helper lemmas: `MesonModel/Det/Lemmas.lean`, `MesonModel/Det/FsLemmas.lean`.
 -/
 import MesonModel.Det.FsLemmas
@@ -105,123 +106,58 @@ theorem dumpCHeader_perm_invariant (nasm : Bool) (macroName : Str)
   have hl : ∀ k, l₁.lookup k = l₂.lookup k := lookup_perm nd p
   simp only [hk, hl]
 
-/-! ### `intro-buildoptions.json`: `sorted(opts.items())` with `OptionKey.__lt__` -/
+/-! ### `intro-buildoptions.json`: `sorted(opts.items())` with `OptionKey.__lt__` (after 8af551c) -/
 
-/-- root cause: two keys without subproject are never `<` one another … -/
-theorem optKeyLt_global (a b : OptKey) (ha : a.sub = none) (hb : b.sub = none) :
-    optKeyLt a b = false := by
-  simp [optKeyLt, ha, hb]
-
-/-- … so `sorted()` is the identity on global option keys: they stay in dict (hence set) order -/
-theorem sorted_global_keys_identity (l : List OptKey) (h : ∀ k ∈ l, k.sub = none) :
-    pySortedBy optKeyLt l = l := by
-  apply mergeSort_of_pairwise
-  induction l with
-  | nil => exact Pairwise.nil
-  | cons a as ih =>
-    refine Pairwise.cons ?_ (ih fun k hk => h k (mem_cons_of_mem _ hk))
-    intro b hb
-    simp [optKeyLt_global b a (h b (mem_cons_of_mem _ hb)) (h a mem_cons_self)]
+/-- `OptionKey.__lt__` is the strict part of a total order on option keys (`None` subproject first, then
+subproject, machine, name): `not (b < a)` is `a ≤ b` -/
+theorem optKeyLt_is_strict_total_order : (∀ a b : OptKey, (!optKeyLt b a) = keyLe a b) ∧ TotalLe keyLe :=
+  ⟨optKeyLt_eq, keyLe_totalLe⟩
 
 def kLto : OptKey := ⟨none, 1, "b_lto".toList⟩
 def kPie : OptKey := ⟨none, 1, "b_pie".toList⟩
 
-/-- full statement: the base section does not depend on the iteration order of `base_options` -/
-def addKeys_perm_invariant_full : Prop :=
-  ∀ (l₁ l₂ : List OptKey) (s : Str), l₁ ~ l₂ → addKeys l₁ s = addKeys l₂ s
+/-- a section of the listing does not depend on the order in which its keys arrive -/
+theorem addKeys_perm_invariant {l₁ l₂ : List OptKey} (s : Str) (p : l₁ ~ l₂) :
+    addKeys l₁ s = addKeys l₂ s := by
+  unfold addKeys
+  rw [pySortedBy_optKeyLt_perm p]
 
-/-- false of the code: two orders, two outputs -/
-theorem addKeys_perm_invariant_counterexample : ¬ addKeys_perm_invariant_full := by
-  intro h
-  have := h [kLto, kPie] [kPie, kLto] [] (Perm.swap _ _ _)
-  simp only [addKeys, addKeysWith] at this
-  rw [sorted_global_keys_identity _ (by simp [kLto, kPie]),
-      sorted_global_keys_identity _ (by simp [kLto, kPie])] at this
-  revert this
-  decide
-
-/-- what does hold: the *rows* are the same, only their order follows the set -/
-theorem addKeys_perm_invariant_partial {l₁ l₂ : List OptKey} (s : Str) (p : l₁ ~ l₂) :
-    addKeys l₁ s ~ addKeys l₂ s := by
-  unfold addKeys addKeysWith
-  exact ((pySortedBy_perm_self _ l₁).trans (p.trans (pySortedBy_perm_self _ l₂).symm)).map _
-
-/-- with the repaired `__lt__` the section is order independent -/
-theorem addKeysFixed_perm_invariant {l₁ l₂ : List OptKey} (s : Str) (p : l₁ ~ l₂) :
-    addKeysFixed l₁ s = addKeysFixed l₂ s := by
-  unfold addKeysFixed addKeysWith
-  rw [pySortedBy_fixed_perm p]
-
-/-- end to end (configure, then introspect): full statement … -/
-def introBuildoptions_perm_invariant_full : Prop :=
-  ∀ (store : List (OptKey × OptKind)) (b₁ b₂ : List OptKey), b₁ ~ b₂ →
-    introBuildoptions store b₁ = introBuildoptions store b₂
+/-- regression witness of the defect repaired by 8af551c: two iteration orders of the base options,
+one output (before the repair `sorted()` was the identity on keys without subproject) -/
+example : addKeys [kLto, kPie] [] = addKeys [kPie, kLto] [] := addKeys_perm_invariant _ (Perm.swap _ _ _)
 
 theorem keysOf_perm {s₁ s₂ : List (OptKey × OptKind)} (p : s₁ ~ s₂) (k : OptKind) :
     keysOf s₁ k ~ keysOf s₂ k := (p.filter _).map _
 
-/-- … refuted: empty store, base options iterated `b_lto, b_pie` vs `b_pie, b_lto` -/
-theorem introBuildoptions_perm_invariant_counterexample : ¬ introBuildoptions_perm_invariant_full := by
-  intro h
-  have := h [] [kLto, kPie] [kPie, kLto] (Perm.swap _ _ _)
-  have e₁ : addBaseOptions [] [kLto, kPie] = [(kLto, .base), (kPie, .base)] := by decide
-  have e₂ : addBaseOptions [] [kPie, kLto] = [(kPie, .base), (kLto, .base)] := by decide
-  have g : ∀ (a b : OptKey), a.sub = none → b.sub = none →
-      listBuildoptions [(a, .base), (b, .base)] = [(a.show, "base".toList), (b.show, "base".toList)] := by
-    intro a b ha hb
-    have s : pySortedBy optKeyLt [a, b] = [a, b] :=
-      sorted_global_keys_identity _ (by simp [ha, hb])
-    have n : pySortedBy optKeyLt ([] : List OptKey) = [] := by simp [pySortedBy]
-    simp [listBuildoptions, listBuildoptionsWith, keysOf, addKeysWith, s, n]
-  rw [introBuildoptions, introBuildoptions, e₁, e₂, g _ _ rfl rfl, g _ _ rfl rfl] at this
-  revert this
-  decide
-
-/-- the listing with the repaired comparator depends only on the *set* of (key, kind) entries -/
-theorem listBuildoptionsFixed_perm_invariant {s₁ s₂ : List (OptKey × OptKind)} (p : s₁ ~ s₂) :
-    listBuildoptionsFixed s₁ = listBuildoptionsFixed s₂ := by
-  unfold listBuildoptionsFixed listBuildoptionsWith
-  have a := fun k => pySortedBy_fixed_perm (keysOf_perm p k)
+/-- the listing depends only on the *set* of (key, kind) entries of the option store -/
+theorem listBuildoptions_perm_invariant {s₁ s₂ : List (OptKey × OptKind)} (p : s₁ ~ s₂) :
+    listBuildoptions s₁ = listBuildoptions s₂ := by
+  unfold listBuildoptions
+  have a := fun k => pySortedBy_optKeyLt_perm (keysOf_perm p k)
   have c : (keysOf s₁ .compiler).mergeSort (fun a b => decide (a.machine ≤ b.machine)) ~
            (keysOf s₂ .compiler).mergeSort (fun a b => decide (a.machine ≤ b.machine)) :=
     (mergeSort_perm _ _).trans ((keysOf_perm p _).trans (mergeSort_perm _ _).symm)
-  have u := pySortedBy_fixed_perm ((keysOf_perm p .project).map
+  have u := pySortedBy_optKeyLt_perm ((keysOf_perm p .project).map
     fun k => if k.sub = some [] then { k with sub := none } else k)
-  simp only [addKeysWith, a, pySortedBy_fixed_perm c, u]
+  simp only [addKeys, a, pySortedBy_optKeyLt_perm c, u]
 
-/-- end to end with the repair: configure (base options arrive in any set order), then introspect —
-one output -/
-theorem introBuildoptionsFixed_perm_invariant (store : List (OptKey × OptKind)) {b₁ b₂ : List OptKey}
-    (p : b₁ ~ b₂) : introBuildoptionsFixed store b₁ = introBuildoptionsFixed store b₂ :=
-  listBuildoptionsFixed_perm_invariant (addBaseOptions_perm (Perm.refl _) p)
+/-- end to end: configure (base options arrive by iterating the *set* `Compiler.base_options`, in any
+order), then introspect — one output -/
+theorem introBuildoptions_perm_invariant (store : List (OptKey × OptKind)) {b₁ b₂ : List OptKey}
+    (p : b₁ ~ b₂) : introBuildoptions store b₁ = introBuildoptions store b₂ :=
+  listBuildoptions_perm_invariant (addBaseOptions_perm (Perm.refl _) p)
 
-/-! ### `intro-tests.json`: `depends`, `LD_LIBRARY_PATH` -/
+/-! ### `intro-tests.json`: `depends`, `LD_LIBRARY_PATH` (after 41e7e99) -/
 
-def testDepends_perm_invariant_full : Prop := ∀ l₁ l₂ : List Str, l₁ ~ l₂ → testDepends l₁ = testDepends l₂
+theorem testDepends_perm_invariant {l₁ l₂ : List Str} (p : l₁ ~ l₂) :
+    testDepends l₁ = testDepends l₂ := sortedStrs_perm p
 
-theorem testDepends_perm_invariant_counterexample : ¬ testDepends_perm_invariant_full := by
-  intro h
-  have := h ["lib@sta".toList, "gen@cus".toList] ["gen@cus".toList, "lib@sta".toList] (Perm.swap _ _ _)
-  revert this
-  decide
+/-- nothing lost, nothing invented -/
+theorem testDepends_is_perm (l : List Str) : testDepends l ~ l := sortedStrs_perm_self l
 
-theorem testDepends_perm_invariant_partial {l₁ l₂ : List Str} (p : l₁ ~ l₂) :
-    testDepends l₁ ~ testDepends l₂ := p
-
-theorem testDependsFixed_perm_invariant {l₁ l₂ : List Str} (p : l₁ ~ l₂) :
-    testDependsFixed l₁ = testDependsFixed l₂ := sortedStrs_perm p
-
-def ldLibraryPath_perm_invariant_full : Prop := ∀ l₁ l₂ : List Str, l₁ ~ l₂ → ldLibraryPath l₁ = ldLibraryPath l₂
-
-theorem ldLibraryPath_perm_invariant_counterexample : ¬ ldLibraryPath_perm_invariant_full := by
-  intro h
-  have := h ["/b/x".toList, "/b/y".toList] ["/b/y".toList, "/b/x".toList] (Perm.swap _ _ _)
-  revert this
-  decide
-
-theorem ldLibraryPathFixed_perm_invariant {l₁ l₂ : List Str} (p : l₁ ~ l₂) :
-    ldLibraryPathFixed l₁ = ldLibraryPathFixed l₂ := by
-  unfold ldLibraryPathFixed; rw [sortedStrs_perm p]
+theorem ldLibraryPath_perm_invariant {l₁ l₂ : List Str} (p : l₁ ~ l₂) :
+    ldLibraryPath l₁ = ldLibraryPath l₂ := by
+  unfold ldLibraryPath; rw [sortedStrs_perm p]
 
 /-! ### `intro-targets.json`: `dependencies` -/
 
@@ -250,24 +186,15 @@ example : targetDependencies (fun _ => "1".toList) [.named "zlib".toList] =
     targetDependencies (fun _ => "2".toList) [.named "zlib".toList] :=
   targetDependencies_fresh_invariant_partial _ _ _ (by simp)
 
-/-! ### `intro-install_plan.json`: `exclude_files`, `exclude_dirs` -/
+/-! ### `intro-install_plan.json`: `exclude_files`, `exclude_dirs` (after 41e7e99) -/
 
-def installPlanExcludes_perm_invariant_full : Prop :=
-  ∀ f₁ f₂ d₁ d₂ : List Str, f₁ ~ f₂ → d₁ ~ d₂ → installPlanExcludes f₁ d₁ = installPlanExcludes f₂ d₂
+theorem installPlanExcludes_perm_invariant {f₁ f₂ d₁ d₂ : List Str} (pf : f₁ ~ f₂) (pd : d₁ ~ d₂) :
+    installPlanExcludes f₁ d₁ = installPlanExcludes f₂ d₂ := by
+  unfold installPlanExcludes; rw [sortedStrs_perm pf, sortedStrs_perm pd]
 
-theorem installPlanExcludes_perm_invariant_counterexample : ¬ installPlanExcludes_perm_invariant_full := by
-  intro h
-  have := h ["a".toList, "b".toList] ["b".toList, "a".toList] [] [] (Perm.swap _ _ _) (Perm.refl _)
-  revert this
-  decide
-
-theorem installPlanExcludes_perm_invariant_partial {f₁ f₂ d₁ d₂ : List Str} (pf : f₁ ~ f₂) (pd : d₁ ~ d₂) :
-    (installPlanExcludes f₁ d₁).1 ~ (installPlanExcludes f₂ d₂).1 ∧
-    (installPlanExcludes f₁ d₁).2 ~ (installPlanExcludes f₂ d₂).2 := ⟨pd, pf⟩
-
-theorem installPlanExcludesFixed_perm_invariant {f₁ f₂ d₁ d₂ : List Str} (pf : f₁ ~ f₂) (pd : d₁ ~ d₂) :
-    installPlanExcludesFixed f₁ d₁ = installPlanExcludesFixed f₂ d₂ := by
-  unfold installPlanExcludesFixed; rw [sortedStrs_perm pf, sortedStrs_perm pd]
+theorem installPlanExcludes_is_perm (f d : List Str) :
+    (installPlanExcludes f d).1 ~ d ∧ (installPlanExcludes f d).2 ~ f :=
+  ⟨sortedStrs_perm_self d, sortedStrs_perm_self f⟩
 
 /-! ### unchanged outputs are not disturbed -/
 
@@ -321,17 +248,35 @@ theorem writeOut_rid_unchanged_keeps_mtime (fs : FS) (p : Str) (old : FileSt) (h
     · simp [b, hp, hne]
     · simp [a, b]
 
-/-- the pkg-config / depmf.json writer (`open(fname, 'w')`) is *not* of that kind: unchanged content,
-new mtime.  Full statement and its refutation: -/
+/-- the writers that remain unconditional are *not* of that kind: unchanged content, new mtime.
+`inPlace` = compile_commands.json (`open(…, 'wb')`); full statement and its refutation: -/
 def inPlace_unchanged_keeps_mtime_full : Prop :=
   ∀ (fs : FS) (p : Str) (old : FileSt), fs.get p = some old →
     (writeOut fs .inPlace p old.content).get p = some old
 
 theorem inPlace_unchanged_keeps_mtime_counterexample : ¬ inPlace_unchanged_keeps_mtime_full := by
   intro h
-  have := h ⟨[("x.pc".toList, ⟨"c".toList, 0⟩)], 5⟩ "x.pc".toList ⟨"c".toList, 0⟩ rfl
+  have := h ⟨[("compile_commands.json".toList, ⟨"[]".toList, 0⟩)], 5⟩ "compile_commands.json".toList ⟨"[]".toList, 0⟩ rfl
   revert this
   decide
+
+/-- `viaReplace` = `write_intro_info` (tmp_dump.json + `os.replace`) and build.ninja: every reconfigure
+installs a new file; full statement and its refutation: -/
+def viaReplace_unchanged_keeps_mtime_full : Prop :=
+  ∀ (fs : FS) (p : Str) (old : FileSt), fs.get p = some old →
+    (writeOut fs .viaReplace p old.content).get p = some old
+
+theorem viaReplace_unchanged_keeps_mtime_counterexample : ¬ viaReplace_unchanged_keeps_mtime_full := by
+  intro h
+  have := h ⟨[("intro-tests.json".toList, ⟨"[]".toList, 0⟩)], 5⟩ "intro-tests.json".toList ⟨"[]".toList, 0⟩ rfl
+  revert this
+  decide
+
+/-- what does hold for them (`…_partial`): the content is kept -/
+theorem unconditional_writers_keep_content_partial (fs : FS) (w : Writer) (p : Str) (old : FileSt)
+    (hp : fs.get p = some old) :
+    ((writeOut fs w p old.content).get p).map FileSt.content = some old.content :=
+  writeOut_content fs w p old.content old hp
 
 /-- what a reconfigure promises about the outputs `outs` it rewrites -/
 structure NoChange (fs : FS) (outs : List (Writer × Str × Str)) : Prop where
@@ -392,8 +337,8 @@ theorem writeOut_nochange (fs : FS) (w : Writer) (p : Str) (old : FileSt)
 /-- **Re-running configuration when nothing changed**: over any sequence of modelled writers,
 (1) every file's *content* is what it was (in particular `build.ninja`, written through
 `build.ninja~` + `os.replace`), and (2) every file that is only ever written through
-`replace_if_different` (configure_file outputs, generated headers, cmake package files) keeps its
-complete state, mtime included.  -/
+`replace_if_different` (configure_file outputs, generated headers, cmake package files, and after
+880fde3 pkg-config files and depmf.json) keeps its complete state, mtime included.  -/
 theorem reconfigure_noop_identity (fs : FS) (outs : List (Writer × Str × Str)) (h : NoChange fs outs) :
     (∀ q, ((configure fs outs).get q).map FileSt.content = (fs.get q).map FileSt.content) ∧
     (∀ q, (∀ o ∈ outs, o.2.1 = q → o.1 = .viaReplaceIfDifferent) → (configure fs outs).get q = fs.get q) := by
@@ -418,18 +363,22 @@ theorem reconfigure_noop_identity (fs : FS) (outs : List (Writer × Str × Str))
     · exact Or.inl (hq (w, p, old.content) mem_cons_self e.symm)
     · exact Or.inr e
 
-/-- non-vacuity: a build directory with a config header, build.ninja and a .pc file; reconfigure
-rewrites all three with the same text: contents identical, `config.h` keeps mtime 1 -/
+/-- non-vacuity: a build directory with a config header, build.ninja, a .pc file and
+compile_commands.json; reconfigure rewrites all four with the same text: contents identical,
+`config.h` and `a.pc` keep their mtimes -/
 example :
     let fs : FS := ⟨[("config.h".toList, ⟨"#define A\n".toList, 1⟩),
                      ("build.ninja".toList, ⟨"rule x\n".toList, 2⟩),
-                     ("a.pc".toList, ⟨"Name: a\n".toList, 3⟩)], 10⟩
+                     ("a.pc".toList, ⟨"Name: a\n".toList, 3⟩),
+                     ("cc.json".toList, ⟨"[]".toList, 4⟩)], 10⟩
     let outs := [(Writer.viaReplaceIfDifferent, "config.h".toList, "#define A\n".toList),
-                 (Writer.inPlace, "a.pc".toList, "Name: a\n".toList),
+                 (Writer.viaReplaceIfDifferent, "a.pc".toList, "Name: a\n".toList),
+                 (Writer.inPlace, "cc.json".toList, "[]".toList),
                  (Writer.viaReplace, "build.ninja".toList, "rule x\n".toList)]
     (configure fs outs).get "config.h".toList = some ⟨"#define A\n".toList, 1⟩ ∧
-    (configure fs outs).get "build.ninja".toList = some ⟨"rule x\n".toList, 13⟩ ∧
-    (configure fs outs).get "a.pc".toList = some ⟨"Name: a\n".toList, 12⟩ := by
+    (configure fs outs).get "build.ninja".toList = some ⟨"rule x\n".toList, 14⟩ ∧
+    (configure fs outs).get "a.pc".toList = some ⟨"Name: a\n".toList, 3⟩ ∧
+    (configure fs outs).get "cc.json".toList = some ⟨"[]".toList, 13⟩ := by
   decide
 
 end MesonModel.Props.C06
